@@ -121,6 +121,7 @@ type batchResult struct {
 	Runs        int              `json:"runs"`
 	Steps       int64            `json:"steps"`
 	SimTimeNS   int64            `json:"sim_time_ns"`
+	SimTimeS    float64          `json:"sim_time_s"`
 	WallS       float64          `json:"wall_s"`
 	Faults      map[string]int   `json:"faults"`
 	Probes      map[string]int   `json:"probes"`
@@ -275,6 +276,7 @@ func main() {
 		agg.Runs += r.Runs
 		agg.Steps += r.Steps
 		agg.SimTimeNS += r.SimTimeNS
+		agg.SimTimeS += r.SimTimeS
 		agg.SweepCases += r.SweepCases
 		for k, v := range r.Faults {
 			agg.Faults[k] += v
@@ -361,7 +363,7 @@ func main() {
 		writeEvidence(prop, tier, seed, meta, &agg, len(acts), len(nontriv), len(states), wall, buildS, violations, workers)
 	}
 	fmt.Printf("runs=%d steps=%d sim_time=%.0fs distinct_interleavings=%d nontrivial=%d states=%d wall=%.1fs (build %.1fs)\n",
-		agg.Runs, agg.Steps, float64(agg.SimTimeNS)/1e9, len(acts), len(nontriv), len(states), wall, buildS)
+		agg.Runs, agg.Steps, agg.SimTimeS, len(acts), len(nontriv), len(states), wall, buildS)
 	fmt.Printf("faults fired: %s\n", fmtMap(agg.Faults))
 	fmt.Printf("probes: %s\n", fmtMap(agg.Probes))
 	if len(agg.Inconcl) > 0 {
